@@ -178,6 +178,43 @@ def handle (j : Json) : Except String Json := do
   | "dfa_isomorphic" => do
     let D1 ← decDFA (← j.getObjVal? "D1"); let D2 ← decDFA (← j.getObjVal? "D2")
     pure (exc Json.bool (D1.isomorphic D2 (← getSched j)))
+  -- regexp <-> automata (C06)
+  | "regexp_to_nfa" => do
+    pure (exc encNFA (regexpToNfa (← decRegexp (← j.getObjVal? "r"))))
+  | "dfa_to_regexp" => do
+    let D ← decDFA (← j.getObjVal? "D")
+    let (qs, qa) := gnfaNames D.Q
+    pure (okJ (encRegexp (D.toRegexp qs qa (← getStrList j "order"))))
+  | "dfa_to_gnfa" => do
+    let D ← decDFA (← j.getObjVal? "D")
+    let (qs, qa) := gnfaNames D.Q
+    let G := D.toGnfa qs qa
+    pure (okJ (Json.mkObj [("Q", encStrs G.Q), ("qs", Json.str G.qStart), ("qa", Json.str G.qAccept),
+      ("delta", Json.arr (G.delta.map fun e => Json.arr #[Json.str e.1.1, Json.str e.1.2, encRegexp e.2]).toArray)]))
+  -- witnesses (C15)
+  | "nfa_simulate" => do
+    let N ← decNFA (← j.getObjVal? "N"); let w ← getStrList j "w"
+    pure (exc (fun (r : Option (List (String × List String))) => match r with
+      | none => Json.null
+      | some rows => Json.arr (rows.map fun x => Json.arr #[Json.str x.1, Json.str (String.join x.2)]).toArray)
+      (N.simulate (← getSched j) w))
+  | "pda_simulate" => do
+    let P ← decPDA (← j.getObjVal? "P"); let w ← getStrList j "w"
+    pure (exc (fun (r : Option (List (String × List String × List String))) => match r with
+      | none => Json.null
+      | some rows => Json.arr (rows.map fun x => Json.arr #[Json.str x.1, Json.str (String.join x.2.1), encStrs x.2.2]).toArray)
+      (P.simulate (← getNat j "limit") (← getNat j "fuel") (← getSched j) w))
+  | "cfg_derive" => do
+    let G ← decCFG (← j.getObjVal? "G"); let w ← getStrList j "w"
+    let lm ← (← j.getObjVal? "leftmost").getBool?
+    pure (exc (fun (d : List (List Sym)) => Json.arr (d.map fun f => Json.arr (f.map encSym).toArray).toArray)
+      (G.deriveWord w lm))
+  | "pda_to_cfg" => do
+    let P ← decPDA (← j.getObjVal? "P")
+    pure (exc (fun (r : List String × List String × List (String × List (Bool × String)) × String) =>
+      Json.mkObj [("V", encStrs r.1), ("Sigma", encStrs r.2.1), ("S", Json.str r.2.2.2),
+        ("R", Json.arr (r.2.2.1.map fun e => Json.arr #[Json.str e.1,
+           Json.arr (e.2.map fun x => encStrs [if x.1 then "v" else "t", x.2]).toArray]).toArray)]) P.toCfgRaw)
   | _ => throw s!"unknown op {op}"
 
 partial def loop (h : IO.FS.Stream) (out : IO.FS.Stream) : IO Unit := do
